@@ -1,7 +1,7 @@
 #!/usr/bin/env python3
 """Copies confirmed seeds from /tmp/seeds_inbox into /verif/seeded/<id>/ with a meta.json built from
 the confirmation log and the seed-vs-check matrix."""
-import json, re, shutil
+import json, re, shutil, sys
 from pathlib import Path
 
 inbox = Path("/tmp/seeds_inbox")
@@ -21,8 +21,11 @@ if ml.exists():
             matrix.setdefault(p[0], {})[p[1]] = p[2]
 props = {json.loads(l)["id"]: json.loads(l) for l in open("/verif/properties.jsonl")}
 kept = []
+only = sys.argv[1] if len(sys.argv) > 1 else None  # e.g. "_r5": keep only seeds whose name contains it
 for d in sorted(inbox.iterdir()):
     name = d.name
+    if only and only not in name:
+        continue
     c = confirm.get(name, "")
     ok = "demo_clean_exit=0" in c and "demo_mutant_exit=1" in c and "SUITE-OK" in c
     if not ok:
